@@ -414,11 +414,18 @@ func (f *Flow) evalStruct(t *Term, env Env, fl *evalFlags) ISet {
 						ek := fmt.Sprintf("(<x#%d%s> != nil:error)", ei, f.term(c).key)
 						if s, has := env[ek]; has && s.Equal(single(0)) {
 							if r := f.w.retRangeOK(sc, ex.Index); r != nil {
+								// under what the call site knows about the arguments
+								if rc := f.retRangeCall(c, sc, ex.Index, env, true); rc != nil {
+									return r.Intersect(rc)
+								}
 								return r
 							}
 						}
 					}
 					if r := f.w.retRange(sc, ex.Index); r != nil {
+						if rc := f.retRangeCall(c, sc, ex.Index, env, false); rc != nil {
+							return r.Intersect(rc)
+						}
 						return r
 					}
 				}
@@ -427,6 +434,9 @@ func (f *Flow) evalStruct(t *Term, env Env, fl *evalFlags) ISet {
 		if c, ok := t.V.(*ssa.Call); ok {
 			if sc := c.Call.StaticCallee(); sc != nil && f.w.inPkg(sc) && sc.Signature.Results().Len() == 1 {
 				if r := f.w.retRange(sc, 0); r != nil {
+					if rc := f.retRangeCall(c, sc, 0, env, false); rc != nil {
+						return r.Intersect(rc)
+					}
 					return r
 				}
 			}
@@ -495,7 +505,7 @@ func (f *Flow) evalStruct(t *Term, env Env, fl *evalFlags) ISet {
 		b := f.eval(t.B, env, fl)
 		switch t.Op {
 		case token.EQL, token.NEQ, token.LSS, token.LEQ, token.GTR, token.GEQ:
-			return mkSet(0, 1)
+			return cmpSets(t.Op, a, b)
 		}
 		if a == nil || b == nil || a.Empty() || b.Empty() {
 			return f.top(t.T)
